@@ -257,7 +257,9 @@ CONSTRUCTS = ['paren', 'bracket', 'func', 'case', 'subquery', 'arith',
               'unclosed_paren', 'unclosed_bracket', 'unclosed_case',
               'comment_list', 'begin', 'ifblock', 'forloop', 'mixed',
               'paren_in_where', 'in_list', 'cte', 'paren_func', 'case_func',
-              'values_func', 'func_alias', 'where_func', 'over_nest']
+              'values_func', 'func_alias', 'where_func', 'over_nest',
+              'opchain', 'sumchain', 'cmpchain', 'castchain', 'arrchain',
+              'dotchain', 'andchain']
 
 
 def nest(construct, d):
@@ -325,6 +327,22 @@ def nest(construct, d):
     if construct == 'over_nest':
         return ('select sum(' + '(a + ' * d + '1' + ')' * d
                 + ') over (partition by b) from t')
+    # flat chains: no brackets in the text, but the grouping engine nests
+    # the joined operands one level per link, so the TREE is d levels deep
+    if construct == 'opchain':
+        return 'select a' + ' || a' * d + ' from t'
+    if construct == 'sumchain':
+        return 'select 1' + '+1' * d + ' from t'
+    if construct == 'cmpchain':
+        return 'select a from t where a' + ' = a' * d
+    if construct == 'castchain':
+        return 'select a' + '::int' * d + ' from t'
+    if construct == 'arrchain':
+        return 'select a' + '[1]' * d + ' from t'
+    if construct == 'dotchain':
+        return 'select a' + '.a' * d + ' from t'
+    if construct == 'andchain':
+        return 'select a from t where a = 1' + ' and a = 1' * d
     raise ValueError(construct)
 
 
